@@ -158,8 +158,12 @@ def eval_case(c):
         # noise probe: interior slices come from the integrator's dense output (interpolation error ~1e-6, not tolerance controlled) and the
         # sensitivity differentiates them numerically; when the same grid solved with another integrator moves E by more than the
         # convergence slack, the case says nothing about the theorem (inconclusive)
-        if not viol and len(Es) == 3:
-            body = make_grid(layers, R, 4 * c['N'], c)
+        # dimensional solves (nondimensionalize=False) apply the absolute tolerance to components of very different size and their dense output is noisier at
+        # every level (thorough sweeps: E(2N) off by 5e-2 between integrators while E(N), E(4N) agree), so all three levels are probed there
+        for lvl, f in (((0, 1), (1, 2), (2, 4)) if not ND else ((2, 4),)):
+            if viol or len(Es) != 3:
+                break
+            body = make_grid(layers, R, f * c['N'], c)
             cnt['solves'] += 1
             sp = solve(body, w, l=l, solve_for=SF5, kamata=True, rtol=1e-12, max_steps=800000, keep_result=True, method='DOP853', nondim=ND)
             if not sp['success']:
@@ -172,9 +176,9 @@ def eval_case(c):
                 if layers[i]['type'] == 'solid':
                     Hp[sel] = sensitivity_to_shear(np.ascontiguousarray(yp[:, sel]), np.ascontiguousarray(r[sel]), np.ascontiguousarray(mu[sel]), np.ascontiguousarray(K[sel]), l)
             Ep = C * float(np.trapz(Hp * mu.imag, r)) / (-complex(sp['love'][0][0]).imag) - 1
-            obs['E_4N_other_integrator'] = float(Ep)
-            if abs(Ep - Es[2]) > 0.5 / (c['N'] * len(layers)):
-                return inconclusive(f'sensitivity profile is noise dominated (E(4N) = {Es[2]:.2e} vs {Ep:.2e} with another integrator)')
+            obs[f'E_{f}N_other_integrator'] = float(Ep)
+            if abs(Ep - Es[lvl]) > 0.5 / (c['N'] * len(layers)):
+                return inconclusive(f'sensitivity profile is noise dominated (E({f}N) = {Es[lvl]:.2e} vs {Ep:.2e} with another integrator)')
         if viol or len(Es) < 3:
             return {'status': 'violated', 'nontrivial': True, 'violations': viol, 'obs': obs, 'counters': cnt} if viol else inconclusive('incomplete')
         ntot = c['N'] * len(layers)
